@@ -212,6 +212,7 @@ def main(a):
                 return 1
             return 0
 
+        orch.clean_replays(PROP)
         w = orch.Worker(l1, 98, ENV, args=wargs)
         lines, death = orch.command(w, "COUNT")
         w.close()
